@@ -525,8 +525,21 @@ func Walk(cfg *Config, fn *ssa.Function) []*Path {
 	st := &state{heap: map[string]hent{}, val: map[string]bool{}, seenCall: map[string]ssa.Instruction{},
 		closures: map[*Term]*ssa.MakeClosure{}, cloEnv: map[*Term][]*Term{}, typeCount: map[string]int{}, rootLens: map[string]int64{}}
 	fr := &frame{id: 0, fn: fn, env: map[ssa.Value]*Term{}, visits: map[*ssa.BasicBlock]int{}}
-	for _, prm := range fn.Params {
-		fr.env[prm] = paramTerm(prm)
+	// parameters are named as they were when the specifications were written (a
+	// renamed parameter is the same parameter): position-wise alias from the
+	// recorded table, when the arity still agrees
+	var alias []string
+	if ParamNames != nil {
+		if rec := ParamNames(load.FuncName(fn)); len(rec) == len(fn.Params) {
+			alias = rec
+		}
+	}
+	for i, prm := range fn.Params {
+		name := prm.Name()
+		if alias != nil {
+			name = alias[i]
+		}
+		fr.env[prm] = paramTerm(prm, name)
 	}
 	st.frames = []*frame{fr}
 	st.nextID = 1
@@ -552,12 +565,16 @@ func Walk(cfg *Config, fn *ssa.Function) []*Path {
 	return w.paths
 }
 
-func paramTerm(prm *ssa.Parameter) *Term {
+// ParamNames, when set, returns the recorded parameter names (receiver
+// first) of a module function by its load.FuncName.
+var ParamNames func(funcName string) []string
+
+func paramTerm(prm *ssa.Parameter, name string) *Term {
 	switch prm.Type().Underlying().(type) {
 	case *types.Pointer, *types.Slice, *types.Interface, *types.Map:
-		return refTerm(&Loc{Root: "P:" + prm.Name(), Len: -1})
+		return refTerm(&Loc{Root: "P:" + name, Len: -1})
 	}
-	return mk("$" + prm.Name())
+	return mk("$" + name)
 }
 
 // render resolves, for presentation, pointers stored inside a term to the
@@ -808,8 +825,31 @@ func (w *walker) binop(s *state, op token.Token, x, y *Term, typ types.Type) *Te
 	case token.LEQ:
 		return not(mk("<", y, x))
 	}
-	// algebraic identities that keep atoms canonical
+	// commutative operators: canonical operand order (constants second, otherwise
+	// by rendering), so that a ^ b and b ^ a are the same term
+	switch op {
+	case token.ADD, token.MUL, token.AND, token.OR, token.XOR:
+		if b, ok := typ.Underlying().(*types.Basic); ok && b.Info()&types.IsString != 0 {
+			break // string concatenation is not commutative
+		}
+		if (x.IsConst() && !y.IsConst()) || (!x.IsConst() && !y.IsConst() && x.String() > y.String()) {
+			x, y = y, x
+		}
+	}
 	return mk(op.String(), x, y)
+}
+
+// Commutative lists uninterpreted operations that are symmetric in their two
+// operands bit for bit (limb-wise field addition, the multiplication
+// routines, equality tests, constant-time comparisons): the last two
+// arguments of their terms are kept in canonical order.
+var Commutative = map[string]bool{
+	"Element.Add": true, "Element.Mul": true, "Element.Equal": true,
+	"Scalar.Add": true, "Scalar.Mul": true, "Scalar.Equal": true,
+	"unpackedScalar.Add": true, "unpackedScalar.Mul": true,
+	"subtle.ConstantTimeCompare": true, "subtle.ConstantTimeCompareBytes": true, "subtle.ConstantTimeCompareByte": true, "subtle.ConstantTimeByteEq": true,
+	"bytes.Equal": true, "EdwardsPoint.Equal": true, "RistrettoPoint.Equal": true, "MontgomeryPoint.Equal": true,
+	"CompressedEdwardsY.Equal": true, "CompressedRistretto.Equal": true,
 }
 
 // nonNilByConstruction: errors made by fmt.Errorf / errors.New.
@@ -1533,6 +1573,9 @@ func (w *walker) uninterpreted(s *state, fr *frame, instr ssa.CallInstruction, a
 			continue // destination whose previous content is just the initial, never-written memory of a parameter
 		}
 		cargs = append(cargs, c)
+	}
+	if n := len(cargs); n >= 2 && Commutative[name] && cargs[n-2].String() > cargs[n-1].String() {
+		cargs[n-2], cargs[n-1] = cargs[n-1], cargs[n-2]
 	}
 	// hash.Hash.Sum(b) appends to b: with b = x[:0] the digest lands in x
 	ct := mk(name, cargs...)
